@@ -1,5 +1,6 @@
 import OZ.Lemmas.NftAuth
 import OZ.Lemmas.NftBits
+import OZ.Lemmas.NftLive
 /-
 C11 — An NFT moves only by its owner, its approved account or a live operator.
 
@@ -244,6 +245,82 @@ theorem approve_is_approve_for_owner (cfg : Cfg) {auth : List Nat} {ap a id lu :
   · intro s s' h
     exact NftCons.approve_core NftCons.bitOps cfg h
 
+/-! ## conversely: an authorized spender / approver is never refused -/
+
+/-- base flavour: `transfer_from` succeeds iff the spender authorizes, is the owner, the live
+approved account or a live operator of `from`, `from` owns the token, and the recipient's balance
+`checked_add` does not overflow -/
+theorem transfer_from_succeeds_iff (cfg : Cfg) {L : List Nat} {s : Nft.State} (hi : Inv L s)
+    {auth : List Nat} {sp f t id : Nat} :
+    (∃ p, Nft.apply cfg s auth (.transferFrom sp f t id) = .ok p) ↔
+      (sp ∈ auth ∧ (sp = f ∨ getApproved s.toCore id = some sp ∨ isApprovedForAll s.toCore f sp = true) ∧
+        s.owner id = some f ∧ upd s.bal f (s.bal f - 1) t + 1 ≤ U32_MAX) :=
+  Nft.apply_move_iff cfg hi.owner_pos rfl
+
+theorem transfer_from_succeeds_iff_enumerable (cfg : Cfg) {s : NftEnum.State} (hi : NftEnum.EInv s)
+    {auth : List Nat} {sp f t id : Nat} :
+    (∃ p, NftEnum.apply cfg s auth (.transferFrom sp f t id) = .ok p) ↔
+      (sp ∈ auth ∧ (sp = f ∨ getApproved s.toCore id = some sp ∨ isApprovedForAll s.toCore f sp = true) ∧
+        s.owner id = some f ∧ upd s.bal f (s.bal f - 1) t + 1 ≤ U32_MAX) :=
+  (NftEnum.apply_move_iff_base cfg hi rfl).trans (Nft.apply_move_iff cfg hi.owner_pos rfl)
+
+theorem transfer_from_succeeds_iff_consecutive (cfg : Cfg) {s : NftCons.BState} {spec : Nat → Option Nat}
+    (hi : NftCons.GInv NftCons.bitOf NftCons.WFB s spec) {auth : List Nat} {sp f t id : Nat} :
+    (∃ p, NftCons.apply NftCons.bitOps cfg s auth (.transferFrom sp f t id) = .ok p) ↔
+      (sp ∈ auth ∧ (sp = f ∨ getApproved s.toCore id = some sp ∨ isApprovedForAll s.toCore f sp = true) ∧
+        spec id = some f ∧ upd s.bal f (s.bal f - 1) t + 1 ≤ U32_MAX) :=
+  NftCons.apply_move_iff NftCons.bitOps_impl cfg hi rfl
+
+/-- `burn_from` likewise, without an overflow condition -/
+theorem burn_from_succeeds_iff (cfg : Cfg) :
+    (∀ {L : List Nat} {s : Nft.State}, Inv L s → ∀ {auth : List Nat} {sp f id : Nat},
+      ((∃ p, Nft.apply cfg s auth (.burnFrom sp f id) = .ok p) ↔
+        (sp ∈ auth ∧ SpenderOK s.toCore sp f id ∧ s.owner id = some f))) ∧
+    (∀ {s : NftEnum.State}, NftEnum.EInv s → ∀ {auth : List Nat} {sp f id : Nat},
+      ((∃ p, NftEnum.apply cfg s auth (.burnFrom sp f id) = .ok p) ↔
+        (sp ∈ auth ∧ SpenderOK s.toCore sp f id ∧ s.owner id = some f))) ∧
+    (∀ {s : NftCons.BState} {spec : Nat → Option Nat}, NftCons.GInv NftCons.bitOf NftCons.WFB s spec →
+      ∀ {auth : List Nat} {sp f id : Nat},
+      ((∃ p, NftCons.apply NftCons.bitOps cfg s auth (.burnFrom sp f id) = .ok p) ↔
+        (sp ∈ auth ∧ SpenderOK s.toCore sp f id ∧ spec id = some f))) :=
+  ⟨fun hi => Nft.apply_move_iff cfg hi.owner_pos rfl,
+   fun hi => (NftEnum.apply_move_iff_base cfg hi rfl).trans (Nft.apply_move_iff cfg hi.owner_pos rfl),
+   fun hi => NftCons.apply_move_iff NftCons.bitOps_impl cfg hi rfl⟩
+
+/-- `approve` succeeds iff the approver authorizes, the token exists, the approver is its owner
+or a live operator of the owner, and `live_until_ledger` is 0 or lies between the current
+ledger and the host's `max_live_until_ledger` (base and enumerable flavour: no invariant needed) -/
+theorem approve_succeeds_iff (cfg : Cfg) {s : Nft.State} {auth : List Nat} {ap a id lu : Nat} :
+    (∃ p, Nft.apply cfg s auth (.approve ap a id lu) = .ok p) ↔
+      (ap ∈ auth ∧ ∃ o, s.owner id = some o ∧ (ap = o ∨ isApprovedForAll s.toCore o ap = true) ∧
+        LiveUntilOK cfg s.now lu) := by
+  show (∃ p, (Nft.approve cfg s auth ap a id lu >>= fun x => pure (x, none)) = .ok p) ↔ _
+  rw [pure_pair_iff]; exact Nft.approve_iff cfg
+
+theorem approve_succeeds_iff_enumerable (cfg : Cfg) {s : NftEnum.State} {auth : List Nat} {ap a id lu : Nat} :
+    (∃ p, NftEnum.apply cfg s auth (.approve ap a id lu) = .ok p) ↔
+      (ap ∈ auth ∧ ∃ o, s.owner id = some o ∧ (ap = o ∨ isApprovedForAll s.toCore o ap = true) ∧
+        LiveUntilOK cfg s.now lu) := by
+  show (∃ p, (Nft.approve cfg s.toState auth ap a id lu >>= fun b => pure (({ s with toState := b } : NftEnum.State), (none : Option Nat))) = .ok p) ↔ _
+  rw [bind_ok_iff, ← Nft.approve_iff cfg]
+  constructor
+  · rintro ⟨b, hb, _⟩; exact ⟨b, hb⟩
+  · rintro ⟨b, hb⟩; exact ⟨b, hb, _, rfl⟩
+
+theorem approve_succeeds_iff_consecutive (cfg : Cfg) {s : NftCons.BState} {spec : Nat → Option Nat}
+    (hi : NftCons.GInv NftCons.bitOf NftCons.WFB s spec) {auth : List Nat} {ap a id lu : Nat} :
+    (∃ p, NftCons.apply NftCons.bitOps cfg s auth (.approve ap a id lu) = .ok p) ↔
+      (ap ∈ auth ∧ ∃ o, spec id = some o ∧ (ap = o ∨ isApprovedForAll s.toCore o ap = true) ∧
+        LiveUntilOK cfg s.now lu) := by
+  show (∃ p, (NftCons.approve NftCons.bitOps cfg s auth ap a id lu >>= fun x => pure (x, none)) = .ok p) ↔ _
+  rw [pure_pair_iff]; exact NftCons.approve_iff NftCons.bitOps_impl cfg hi
+
+/-- `approve_for_all` (shared by all flavours) succeeds iff the owner authorizes and
+`live_until_ledger` is acceptable -/
+theorem approve_for_all_succeeds_iff {cfg : Cfg} {c : Core} {auth : List Nat} {o p lu : Nat} :
+    (∃ c', approveForAll cfg c auth o p lu = .ok c') ↔ (o ∈ auth ∧ LiveUntilOK cfg c.now lu) :=
+  approveForAll_iff
+
 /-! ## non-vacuity -/
 
 /-- owner 1 approves 2 for token 0 until ledger 12; at ledger 12 account 2 moves it, the approval
@@ -268,5 +345,10 @@ set_option maxRecDepth 8000 in
 example : (NftCons.ownerOf NftCons.bitOps (NftCons.run NftCons.bitOps ⟨1, 1000⟩ (NftCons.init NftCons.noBuckets 10)
     [([], .batchMint 1 40), ([1], .approveForAll 1 4 50), ([1], .transfer 1 2 7),
      ([4], .transferFrom 4 2 4 7), ([4], .transferFrom 4 1 4 8)]) 8).toOption = some 4 := by decide
+
+/-- `LiveUntilOK`: with max_entry_ttl 1000 at ledger 10, 1009 is the last acceptable ledger -/
+example : LiveUntilOK ⟨1, 1000⟩ 10 1009 ∧ ¬ LiveUntilOK ⟨1, 1000⟩ 10 1010 ∧ LiveUntilOK ⟨1, 1000⟩ 10 0 ∧
+    ¬ LiveUntilOK ⟨1, 1000⟩ 10 9 := by
+  unfold LiveUntilOK Cfg.maxLiveUntil; decide
 
 end OZ.C11
